@@ -142,6 +142,10 @@ pub fn frac_strategy() -> impl Strategy<Value = String> {
         1 => Just("50000000000000000001".to_string()),
         1 => Just("500000000000000000000000000000000000".to_string()),
         1 => Just("499999999999999999999999999999999999".to_string()),
+        // the double / single just below one half
+        2 => Just("49999999999999994".to_string()),
+        1 => Just("49999997".to_string()),
+        1 => Just("4999999999999999".to_string()),
         1 => Just("000000000000000000001".to_string()),
         1 => Just("999999999999999999999".to_string()),
         3 => "[0-9]{1,20}",
